@@ -649,9 +649,26 @@ def rand_kvs(rng, dim, mx=4):
     return [[rng.randint(1, 3), rng.randint(1, mx), 0, 1] for _ in range(dim)]
 
 
+def gen_bc_3d_faces():
+    """Deterministic block: 3-D patches with pairwise different numbers of dofs per direction (n0 != n1 != n2), every
+    one of the 6 faces on its own and the 'all' shorthand, data that is not symmetric under any exchange of
+    coordinates ('lin' = 1 + 2x - y/2 + z/4, 'cub', vector data).  check_local_bc evaluates 'the values interpolate
+    the data on the physical face' dof by dof, so an enumeration of a face that is transposed against
+    dircoeffs.ravel() (e.g. the faces normal to the last axis) is reported with the face and space as failing input."""
+    cases = []
+    faces = [[ax, s] for ax in range(3) for s in (0, 1)]
+    for kvs in ([[2, 1, 0, 1], [2, 2, 0, 1], [2, 3, 0, 1]], [[1, 3, 0, 1], [3, 2, 0, 1], [2, 1, 0, 1]]):
+        for geo in ({'name': 'identity'}, GEOS3[1]):
+            for f in faces:
+                for g in ('lin', 'cub', 'vec2'):
+                    cases.append({'kvs': kvs, 'geo': geo, 'call': 'one', 'conds': [[f, g]]})
+            cases.append({'kvs': kvs, 'geo': geo, 'call': 'all', 'conds': [[f, 'lin'] for f in faces]})
+    return cases
+
+
 def gen_bc(ctx):
     rng = ctx.rng
-    cases = []
+    cases = gen_bc_3d_faces()
     reps = 40 if ctx.tier == 'thorough' else 5
     for dim, geos in ((2, GEOS2), (3, GEOS3)):
         faces = [[ax, s] for ax in range(dim) for s in (0, 1)]
@@ -885,6 +902,7 @@ def run_case_files(ctx, prefix, header, okname, texts, chunk=250, ctype='ctype')
 
 def run(ctx):
     ctx.obligations_stage(PROPS, extra_targets=['C10/Examples.vo'], gate_dirs=['C02', 'C14'])
+    ctx.obligations_stage('C10/Props2.v', extra_targets=['C10/Examples2.vo'])
     ctx.assumptions += [
         'model: hand transcription of RestrictedLinearSystem, slice_indices/boundary_dofs/boundary_cells, _parse_bdspec, '
         'combine_bcs, _drop_nans, the index parts of compute_dirichlet_bc(s)/compute_initial_condition_01 and of '
@@ -926,6 +944,7 @@ def gen_all(ctx):
 def replay(ctx, data):
     """./check C10 --replay evidence/replay/C10-n.json: run the recorded input alone."""
     ctx.obligations_stage(PROPS, extra_targets=['C10/Examples.vo'], gate_dirs=['C02', 'C14'])
+    ctx.obligations_stage('C10/Props2.v', extra_targets=['C10/Examples2.vo'])
     sig = data.get('signature', '')
     case = (data.get('replay') or {}).get('case')
     fam = None
